@@ -261,6 +261,9 @@ class C07:
             if not r.ok:
                 if r.timeout:
                     return Outcome(harness_error="timeout in concurrent run", sample=dict(scenario=ctext))
+                if r.status == 4 and '"what":"step limit"' in r.raw:
+                    # the simulator's own step budget ran out (many executors x dense pre-emption): a limit of the harness
+                    return Outcome(harness_error="simulator step limit in the concurrent section", sample=dict(scenario=ctext[:1500]))
                 v = ("crash_when_concurrent", "status=%s signal=%s tail=%s" % (r.status, r.signal, r.raw[-300:]))
             else:
                 phase = None
